@@ -913,6 +913,103 @@ def stream_fstring(ck, model_ok):
     conn.close()
 
 
+# ----------------------------------------------------------------------------- (e) date formats
+
+DATE_SPECS = ["%Y", "%y", "%m", "%-m", "%d", "%-d", "%H", "%-H", "%I", "%M", "%S", "%f", "%b", "%B", "%a", "%A", "%p", "%+", "%%"]
+DATE_LITS = ["-", "/", ":", ".", ",", "T", "at", "Q1", "_", "(", ")", "'", '"', "o'clock", "|", "#", "h", "é"]
+DATE_BAD = ["%-Y", "%-b", "%j", "%", "%-"]          # no translation: a compile error
+
+
+def rand_date_format(r):
+    n = r.randint(1, 6)
+    out = []
+    for _ in range(n):
+        x = r.random()
+        if x < 0.55:
+            out.append(r.choice(DATE_SPECS))
+        elif x < 0.85:
+            out.append(r.choice(DATE_LITS))
+        else:
+            out.append(r.choice([" ", "  ", " "]))
+    f = "".join(out)
+    if "'" in f and '"' in f:
+        f = f.replace('"', "")
+    return f or "%Y"
+
+
+def stream_datefmt(ck, model_ok, dateinfo):
+    """`(a | date.to_text "<format>")` on the six dialects that translate date formats: the whole emitted expression vs the
+    model (chrono items -> the dialect's table -> literal -> template), agreement on rejection, and -- sql.duckdb, whose
+    format language SQLite's strftime shares for %Y %m %d %H %M %S -- the emitted format literal applied by SQLite to a
+    fixed instant vs python's strftime of the SOURCE format."""
+    if not dateinfo or "dialects" not in dateinfo:
+        return
+    import sqlite3
+    import datetime
+    dialects = [d for d, _, _ in dateinfo["dialects"]]
+    fmts = ["%Y-%m-%d", "%d/%m/%y %H:%M:%S", "%Y'%m", "%d '%H", "'", "%A, %-d %B %Y", "%+", "%Y%%", "at %I %p", "%H:%M:%S.%f", 'say "%Y"', "%Y  %m"] + DATE_BAD
+    seen = set(fmts)
+    n = ck.n(60, 400)
+    while len(fmts) < n + 12:
+        f = rand_date_format(ck.rng)
+        if f not in seen:
+            seen.add(f)
+            fmts.append(f)
+
+    def src_of(f):
+        q = "'" if '"' in f else '"'
+        return "(a | date.to_text %s%s%s)" % (q, f, q)
+    srcs = [src_of(f) for f in fmts]
+    model = [None] * len(fmts)
+    if model_ok:
+        try:
+            hdr = M.HEADER.replace("Model.EvalDoc", "Model.EvalDoc Model.SqlSem Model.SqlCompat Model.C02Probe Model.DateFormat")
+            dl = "[" + "; ".join(G_codes(d) for d in dialects) + "]"
+            model = coq_eval_retry(ck, hdr, ["map fst (probe_rexpr %s (ROp n_date_to_text [RLit (LStr %s); RCol 0]))" % (dl, G_codes(f)) for f in fmts])
+        except (RuntimeError, ValueError, TypeError) as ex:
+            ck.coverage["datefmt_model_error"] = str(ex)[-600:]
+            ck.violation("the date format model could not be evaluated", {"kind": "model-evaluation-failed", "error": str(ex)[-600:]}, no_input=True)
+            return
+    conn = sqlite3.connect(":memory:")
+    when = datetime.datetime(2020, 3, 4, 5, 6, 7)
+    for di, dialect in enumerate(dialects):
+        comp = M.compile_batch(srcs, dialect)
+        for k, f in enumerate(fmts):
+            got = comp[k]
+            mt = M.codes_text(model[k][di]) if model[k] is not None else None
+            rejected = got[0] == "ERR"
+            ck.count("datefmt", dialect + "|" + f, nontrivial=True)
+            ck.stat("datefmt", "%s:%s" % (dialect, "rejected" if rejected else "translated"))
+            case = {"stream": "datefmt", "dialect": dialect, "format": f, "src": "from t | select {v = %s}" % srcs[k], "sql": None if rejected else got[0], "model_sql": mt}
+            if rejected != (mt is None) or (not rejected and mt != got[0]):
+                ck.disagreement("date format %r (%s): model %r, implementation %r" % (f, dialect, mt, "a compile error" if rejected else got[0]),
+                                dict(case, stream="sqltext", model=mt, impl=None if rejected else got[0]), classify_text)
+                continue
+            if rejected or dialect != "duckdb" or any(x not in "YmdHMS%" for x in re_findall_specs(f)) or any(ord(ch) > 126 for ch in f):
+                continue
+            sql = got[0]
+            i = sql.find(", '")
+            if not sql.startswith("strftime(a, '") or i < 0:
+                continue
+            lit = sql[i + 2:-1]
+            try:
+                obs = conn.execute("SELECT strftime(%s, '2020-03-04 05:06:07')" % lit).fetchone()[0]
+            except sqlite3.Error:
+                continue
+            exp = when.strftime(f)
+            ck.stat("datefmt", "duckdb:executed-as-sqlite-strftime")
+            if obs != exp:
+                case.update({"format_literal": lit, "observed": obs, "expected": exp})
+                ck.disagreement("date format %r (duckdb): the emitted format literal %s renders %r, the source format means %r" % (f, lit, obs, exp), case,
+                                lambda c: F["N10"] if "'" in c["format"] else None)
+    conn.close()
+
+
+def re_findall_specs(f):
+    import re as _re
+    return [m_[-1] for m_ in _re.findall(r"%-?.", f)]
+
+
 def G_codes(s):
     return "[" + "; ".join(str(ord(c)) for c in s) + "]%N"
 
